@@ -948,3 +948,81 @@ def frac_lines(rng, n):
             a = rand_arg(rng, s, -3, 8)
         lines.append("frac %s %d %s" % (s, rng.randrange(0, 17), a))
     return lines
+
+
+def underflow_boundary_casts(rng, n):
+    """casts whose result sits at the bottom of the destination range, in particular sources whose
+    precision fills whole 64-bit words (64, 128, 192, 256) shifted by exactly that many bits"""
+    lines = []
+    srcs = [(15, 64), (15, 128), (16, 192), (19, 256), (15, 113), (11, 53), (15, 65), (15, 127), (15, 129)]
+    dsts = [(8, 24), (5, 11), (11, 53), (8, 8), (8, 64), (10, 64), (11, 128), (5, 4), (8, 23), (8, 25)]
+    for _ in range(n):
+        E, P = rng.choice(srcs)
+        E2, P2 = rng.choice(dsts)
+        s = Sem(E, P, rng.choice(MODES))
+        g = Sem(E2, P2, rng.choice(MODES))
+        m = rng.choice(MODES)
+        # destination's smallest subnormal is 2^(emin2-(P2-1)); aim at c * 2^(that + d)
+        base = g.emin - (g.P - 1) + rng.choice([-2, -1, -1, -1, 0, 0, 1, P2 - 2, P2 - 1])
+        base = max(s.emin, min(s.emax, base))
+        mant = rng.choice([2 ** (P - 1), 3 * 2 ** (P - 2), 2 ** (P - 1) + 1, 2 ** P - 1, 2 ** (P - 1) + 2 ** (P - 2) + 1, rand_mant(rng, P)])
+        lines.append("cast %s %s %s %s" % (s, g, m, ftok("N", rng.randrange(2), base, mant)))
+    return lines
+
+
+def word_boundary_arith(rng, n):
+    """add/sub/mul/div in formats whose precision fills whole words, with exponent gaps / underflow
+    depths equal to the precision and neighbours (loss classification at a word boundary)"""
+    lines = []
+    for _ in range(n):
+        E, P = rng.choice([(15, 64), (15, 128), (16, 192), (17, 256), (12, 64), (10, 128)])
+        m = rng.choice(MODES)
+        s = Sem(E, P, m)
+        ea = rng.randrange(s.emin + 2 * P + 4, s.emax - 4)
+        gap = rng.choice([P - 1, P, P, P, P + 1, 2 * P, 64, 128])
+        a = ftok("N", rng.randrange(2), ea, rng.choice([2 ** (P - 1), rand_mant(rng, P)]))
+        b = ftok("N", rng.randrange(2), ea - gap, rng.choice([2 ** (P - 1), 2 ** (P - 1) + 1, 3 * 2 ** (P - 2), 2 ** P - 1, rand_mant(rng, P)]))
+        lines.append("%s %s %s %s %s" % (rng.choice(["add", "sub"]), s, m, a, b))
+        # products / quotients that underflow by about P bits
+        e1 = rng.randrange(s.emin, s.emin + 40)
+        e2 = -rng.choice([P - 1, P, P, P + 1]) - rng.randrange(0, 3) - (e1 - s.emin)
+        e2 = max(s.emin, min(s.emax, e2))
+        lines.append("mul %s %s %s %s" % (s, m, ftok("N", 0, e1, rng.choice([2 ** (P - 1), 3 * 2 ** (P - 2), rand_mant(rng, P)])), ftok("N", rng.randrange(2), e2, rng.choice([2 ** (P - 1), 3 * 2 ** (P - 2), rand_mant(rng, P)]))))
+        e3 = min(s.emax, -e2)
+        lines.append("div %s %s %s %s" % (s, m, ftok("N", 0, e1, rng.choice([2 ** (P - 1), 3 * 2 ** (P - 2), rand_mant(rng, P)])), ftok("N", rng.randrange(2), e3, rng.choice([2 ** (P - 1), 3 * 2 ** (P - 2), rand_mant(rng, P)]))))
+    return lines
+
+
+def scale_overflow_lines(rng, fmts):
+    """scale of subnormal / tiny operands by amounts beyond the width of the exponent range"""
+    lines = []
+    for (E, P) in fmts:
+        for m in MODES:
+            s = Sem(E, P, m)
+            rng_w = s.emax - s.emin
+            for sg in (0, 1):
+                for mant in (1, 2 ** (P - 1) - 1, 3):
+                    if mant >= 2 ** (P - 1):
+                        continue
+                    for k in (rng_w, rng_w + 1, rng_w + 2, rng_w + P - 2, rng_w + P - 1, rng_w + P, rng_w + P + 1, 2 * rng_w, 2 ** 40 - 1):
+                        lines.append("scale %s %s %d %s" % (s, m, k, ftok("N", sg, s.emin, mant)))
+                top = ftok("N", sg, s.emax, 2 ** P - 1)
+                for k in (-rng_w, -rng_w - 1, -rng_w - P + 1, -rng_w - P, -rng_w - P - 1, -2 * rng_w, -(2 ** 40 - 1)):
+                    lines.append("scale %s %s %d %s" % (s, m, k, top))
+    return lines
+
+
+def nat_special_pairs():
+    """every ordered pair of the special FP64 / FP32 patterns x every native-compared operation"""
+    p64 = [0, 1 << 63, 1, (1 << 63) | 1, 0x7ff0000000000000, 0xfff0000000000000, 0x7ff8000000000000, 0x7fefffffffffffff, 0xffefffffffffffff,
+           0x3ff0000000000000, 0xbff0000000000000, 0x10000000000000, 0x8010000000000000, 0xfffffffffffff]
+    p32 = [0, 1 << 31, 1, (1 << 31) | 1, 0x7f800000, 0xff800000, 0x7fc00000, 0x7f7fffff, 0xff7fffff, 0x3f800000, 0xbf800000, 0x800000, 0x80800000, 0x7fffff]
+    lines = []
+    for op in ("add", "sub", "mul", "div", "rem", "cmp"):
+        for a in p64:
+            for b in p64:
+                lines.append("nat64 %s %d %d" % (op, a, b))
+        for a in p32:
+            for b in p32:
+                lines.append("nat32 %s %d %d" % (op, a, b))
+    return lines
